@@ -309,6 +309,10 @@ const SEEDS: &[&str] = &[
     "let cols = {p = 1, q = 2}\nfrom t | derive cols | join (from u | derive cols) true",
     "let k = 5\nfrom t | derive {x = k} | join (from u | derive {x = k, y = k}) (==a) | select {t.x, u.y}",
     "let twice = e -> {p = e, q = e}\nfrom t | select (twice a) | join (from u | select (twice d)) (p == u.p)",
+    // reported by seeding agents on the unchanged tree (rounds 6 and 7)
+    "from t | join c=(from u | select !{d}) (t.a == c.a) | select {c.d}",
+    "let f = func r <relation> -> (from r | join (from r | select {a}) (==a))\nfrom t | f",
+    "from t | join u (t.a == (lag 1 u.a))",
     // a joined sub-pipeline that exposes the name `a` twice (recorded finding)
     "let q = (from t | select {a, b})\nfrom q | join u (==a) | join r=(from u | join l=q (u.d == l.b)) true",
     "let q = (from t | select {a, b})\nfrom t | join r=(from u | join l=q (u.d == l.b)) (t.a == r.d) | select {t.a, r.d, r.b}",
@@ -403,6 +407,17 @@ pub fn run(tier: Tier) -> i32 {
         run.transitions += o.ntransforms as u64;
         run.observe(o.sig);
         for (k, m) in &o.errs {
+            // cause predicates over the program text (recorded findings; each names its ingredient)
+            let flat = text.replace('\n', " ");
+            let k = &(if k.starts_with("cid-of-another-pipeline-used:Select") && flat.contains("join") && flat.split("join").skip(1).any(|j| j.trim_start().contains("select !{")) {
+                "excluded-column-reachable-through-the-alias-of-the-joined-pipeline".to_string()
+            } else if k.starts_with("cid-of-another-pipeline-used") && flat.contains("<relation>") {
+                "relation-parameter-used-twice-in-a-function-body".to_string()
+            } else if k == "cid-not-visible" && m.contains("Compute.expr") && flat.split("join").skip(1).any(|j| ["lag ", "lead ", "rank ", "row_number ", "sum ", "count ", "min ", "max ", "average ", "first ", "last "].iter().any(|f| j.split(')').next().map(|c| c.contains(&format!("({f}"))).unwrap_or(false) || j.contains(&format!("== ({f}")))) {
+                "window-function-in-join-condition-computed-before-the-join".to_string()
+            } else {
+                k.clone()
+            });
             let mut d = meta.clone();
             d["prql"] = json!(text);
             d["violated"] = json!(m);
